@@ -65,7 +65,7 @@ def _judge_one(U, op, A, out, k, rs, family, case, rec):
     ctx = {"matrix": A, "count": k, "random_state": rs, "edges": E, "feasible_max": cap}
     rec.count("%s:%s" % (op, "feasible" if feasible else "infeasible"))
     try:
-        R = fn(A, k, **kw)
+        R = fn(A, np.int64(k) if (k + E) % 3 == 0 else k, **kw)
         raised = None
     except ValueError as e:
         R, raised = None, e
